@@ -100,7 +100,9 @@ Definition first_failure (rs : list bytes) : bytes :=
 Definition prop_all (args : list bytes) : bytes :=
   first_failure [prop_same_value args; prop_canonical_form args; prop_idempotent args].
 
-(* uniqueness: texts of the same value get identical bytes, texts of different values do not.
+(* uniqueness: identical canonical bytes only for texts of the same value (numbers by exact decimal
+   value), and always for texts of the same value in the sense Matrix canonical JSON fixes a
+   spelling for (integers by value, non-integer literals by their text).
    [t1; t2; obs] with obs as produced by run_pair *)
 Definition prop_unique (args : list bytes) : bytes :=
   match args with
@@ -108,11 +110,12 @@ Definition prop_unique (args : list bytes) : bytes :=
       match parse_json t1, parse_json t2 with
       | Some v1, Some v2 =>
           let same := json_same v1 v2 && json_same v2 v1 in
+          let same_matrix := json_same_matrix v1 v2 && json_same_matrix v2 v1 in
           if negb (json_nodup v1 && json_nodup v2) then bs "ok" (* outside the domain *)
           else if is_prefix (bs "same:") obs then
             if same then bs "ok" else bs "FAIL different values, identical canonical bytes"
           else if is_prefix (bs "differ:") obs then
-            if same then bs "FAIL same value, different canonical bytes" else bs "ok"
+            if same_matrix then bs "FAIL same value, different canonical bytes" else bs "ok"
           else bs "FAIL valid input refused"
       | _, _ => if bytes_eqb obs (bs "err") then bs "ok" else bs "FAIL invalid input accepted"
       end
